@@ -195,7 +195,7 @@ class C07(Cfg):
                         for e in lst: accepted_edges.add((e["src"], e["se"], e["l"], e["dst"], e["c"], e["by"]))
                     self._accepted(fail, specs, placed, room, c)
                     for sig, _ in res[n0:]:
-                        if sig in ("placing-reference-label", "replayed-entry", "placing-reference-author", "room-row-replaced"):
+                        if sig in ("placing-reference-label", "replayed-entry", "placing-reference-author"):
                             tainted.setdefault(room, sig)
                     pending_refused = None
                 elif out.startswith("err:"):
@@ -210,6 +210,16 @@ class C07(Cfg):
                     fail("refused-candidate-left-trace", "tables changed although %s was refused" % pending_refused[1])
                 if last_dump is not None and not pending_refused:
                     self._stored_monotone(fail, specs, last_dump, cur)
+                    for room, sp in specs.items():
+                        bad = getattr(sp, "row_unentitled", None)
+                        if bad is None: continue
+                        sp.row_unentitled = None
+                        was = [r for r in last_dump[0] if r[0] == room]
+                        now = [r for r in cur[0] if r[0] == room]
+                        if was and now != was and (room, None, bad["ent"], bad["c"], bad["m"], bad["by"]) in [r[:6] for r in now]:
+                            tainted.setdefault(room, "room-row-replaced")
+                            fail("room-row-replaced", "the stored room row %s was replaced by %s: not a newer sys.Room row signed by an admin" % (was[0], now[0]))
+                            sp.row = bad
                 last_dump = cur
             elif k == "probe":
                 room = g("room")
@@ -372,10 +382,8 @@ class C07(Cfg):
                         self._placing(fail, placed, gid, lst, au[ek], r, adm)
                         add_sorted(grp[lst], self._entry(r))
         if something_new:
-            if row_changed:
-                fail("room-row-replaced", "the stored room row (author %d, date %d, entity %d) was replaced by one of author %d, date %d, entity %d" % (
-                    old.row["by"], old.row["m"], old.row["ent"], c["row"]["by"], c["row"]["m"], c["row"]["ent"]))
-                spec.row = c["row"]
+            # whether the candidate's room row was entitled to replace the stored one; judged on the next table dump
+            spec.row_unentitled = c["row"] if row_changed else None
             specs[room] = spec
 
 
